@@ -608,6 +608,41 @@ class GuardInliner:
         rets = _own(body, (ast.Return,))
         if not rets or not isinstance(body[-1], ast.Return) or any(not (isinstance(x.value, ast.Constant) and isinstance(x.value.value, bool)) for x in rets):
             return None
+        if body[-1].value.value is refuse_on and len(body) >= 2 and isinstance(body[-2], (ast.For, ast.While)) and not body[-2].orelse \
+                and all(x.value.value is not refuse_on for x in rets if x is not body[-1]) \
+                and not _own(body[:-2], (ast.Return,)) and len(_own([body[-2]], (ast.Return,))) == len(_loop_level(body[-2].body, (ast.Return,))):
+            # the dual shape, a search: `for ..: if found: return <go on>; [if dead end: break]`  then  `return <refuse>`:
+            # found -> leave the loop and go on; a dead end and an exhausted loop -> the refusal (which leaves the function)
+            binds = norm.bind_call(m, call, skip)
+            if binds is None:
+                return None
+            self.counter += 1
+            tag = f"_{m.name.strip('_')}{self.counter}q"
+            names = norm._assigned_names(body) | set(binds)
+            ren = {x: x + tag for x in names}
+            body2 = [norm._Rename(ren).visit(x) for x in body[:-1]]
+            inits = [ast.Assign(targets=[ast.Name(id=ren[p], ctx=ast.Store())], value=copy.deepcopy(a)) for p, a in binds.items()]
+            loop = body2[-1]
+            level_breaks = set(map(id, _loop_level(loop.body, (ast.Break,))))
+            level_rets = set(map(id, _loop_level(loop.body, (ast.Return,))))
+
+            class R2(ast.NodeTransformer):
+                def visit_Break(self, node):
+                    return [copy.deepcopy(x) for x in guarded] if id(node) in level_breaks else node
+
+                def visit_Return(self, node):
+                    return ast.copy_location(ast.Break(), node) if id(node) in level_rets else node
+
+                def visit_FunctionDef(self, node):
+                    return node
+                visit_Lambda = visit_AsyncFunctionDef = visit_FunctionDef
+            loop.body = [y for x in loop.body for y in (lambda v: v if isinstance(v, list) else [v])(R2().visit(x))]
+            loop.orelse = [copy.deepcopy(x) for x in guarded]
+            new = inits + body2
+            for n in new:
+                ast.copy_location(n, s)
+                ast.fix_missing_locations(n)
+            return new
         if body[-1].value.value is refuse_on or any(x.value.value is not refuse_on for x in rets if x is not body[-1]):
             return None
         binds = norm.bind_call(m, call, skip)
